@@ -52,6 +52,10 @@ def run(prog: Program, rep: Report, tier: str):
         is_container = bool({p.split(":")[-1] for p in preds} & container_preds) or any(p.startswith("λ:") for p in preds) or (fb is not None and fb.qualname == c.qualname) or bool(K.slots_of(prog, c)) and not c03.is_union_like(prog, f)
         is_noop = preds <= {"isunresolvable", "isnonetype", "isbytestype"} and "passthrough" in forms and len(forms) == 1
         is_literal = "isliteral" in preds
+        unknown = sorted(x for x in forms if x.startswith("unknown:"))
+        if unknown:
+            rep.undecided("R06.1", c.qualname, f.loc, f"return shape outside the idiom set: {unknown}")
+            forms = {x for x in forms if not x.startswith("unknown:")}
         if is_noop:
             rep.held("R06.1", c.qualname, f.loc, "pass-through routine serves only unresolvable / None / bytes rows", nontrivial=False)
         elif is_literal:
